@@ -29,7 +29,7 @@ end random
 namespace Skel
 def AllocateNodeID : List String := ["tryAcquireNodeID", "heartbeatLoop"]
 def Generate : List String := ["random.String", "random.Int64", "tryMarkAsUsed"]
-def HybridSetNX : List String := ["h.cacheTierFor", "cache.Exists", "cache.Set"]
+def HybridSetNX : List String := ["h.cacheTierFor", "nxSetter.SetNX", "cache.Exists", "cache.Set"]
 def HybridSetNXRuntime : List String := ["nxSetter.SetNX", "nxSetter.SetNX", "h.Exists", "h.setRuntime"]
 def NodeRelease : List String := ["storage.Delete"]
 def Release : List String := ["getKey", "storage.Delete"]
